@@ -38,7 +38,9 @@ type contErr struct{ v int }
 
 func (e contErr) Error() string { return fmt.Sprintf("cont-%d", e.v) }
 
-var fatalErrs = map[int]error{1: errors.New("fatal-1"), 2: errors.New("fatal-2")}
+// (the second one wraps a per-record failure, as a handler that gives up after too many bad records would report it: what
+// is terminal is decided by the handler's IsContinuableError, not by what the error wraps)
+var fatalErrs = map[int]error{1: errors.New("fatal-1"), 2: fmt.Errorf("fatal-2, giving up after: %w", errs.ErrTransformFailed("cont-9"))}
 
 type scriptedRaw struct{ v int }
 
@@ -93,6 +95,10 @@ func observeErr(err error, beforeAnyRead bool) (string, int) {
 	switch {
 	case err == io.EOF:
 		return "eof", 0
+	case err == fatalErrs[1]:
+		return "fatal", 1
+	case err == fatalErrs[2]:
+		return "fatal", 2
 	case errs.IsErrTransformFailed(err):
 		var v int
 		fmt.Sscanf(err.Error(), "cont-%d", &v)
